@@ -172,6 +172,20 @@ def check_runtime(ctx, fx, cfg):
                                 okd = takes and len(dets) == 1
                     # and the returned ActorHandle is the one with the detach fn
                     okd = okd and (wd[0]["dest"] == [0] or any(s["k"] == "ret" for s in sinks(b, wd[0]["dest"][0])))
+                if not okd and stored:
+                    # ... or the detaching is a method of the task object the handle is built from (`impl SpawnedTask for
+                    # SmolTask { fn detach(self: Box<Self>) { take the handle out of the slot; detach it } }`), which
+                    # ActorHandle::detach calls when no detach function was registered
+                    from props import c17 as _c17
+                    _jc, dc_, _mk = _c17.handle_parts(ctx, fx, f)
+                    if dc_ is not None and dc_["kind"] == "assoc_fn":
+                        cbs = [ctx.body(fx, g_) for g_ in graph.with_forwarded(fx, dc_)]
+                        takes = any((x.get("callee") or "").endswith("option::{impl#0}::take") for cb in cbs for _, x in cb.normal_calls())
+                        dets = [x for cb in cbs for _, x in cb.normal_calls() if (x.get("callee") or "").startswith("async_task::") and (x.get("callee") or "").endswith("::detach")]
+                        ahd = fx.fn("actor::spawner::actor_handle::ActorHandle::<A>::detach")
+                        tt_ = _c17.task_trait(fx)
+                        calls_it = ahd is not None and tt_ is not None and any(x.get("trait") == tt_[0] and (x.get("callee") or "").endswith("::detach") for _, x in ctx.body(fx, ahd).normal_calls())
+                        okd = takes and len(dets) == 1 and calls_it
                 ctx.require(okd, "R18.2", "detach-fn-registered@" + cfg, "dropping this runtime's task handle cancels the actor: spawn_actor must register a detach function that takes the handle out of the slot and detaches it", fn=f["def"], site=t["l"])
         else:
             ctx.ok("R18.2", "handle-drop-detaches:" + inst, t["l"], {"crate": crate, "drop": sem, "stored": stored})
